@@ -31,6 +31,18 @@ CLAIMED = {
  "C07": ("fault_enumeration", "panic trap + per-call watchdog + failure-surfacing checker in isolated child processes over an enumerated fault space",
          "The cross product of 28 action/guard behaviours x {action, guard} x 5 error settings x 6 hostile states x 6 controls x 4 pendings x {Step, Walk} x renderings (complete in thorough, 1/3 per seed in quick), 45 targeted + random damaged JSON/YAML documents through three loaders, and odd native results are executed in child processes with every case logged first; a panic, fatal exit or call outstanding at the hard bound is a violation, and every injected failure must be surfaced as the reference step says.",
          "Native actions do not panic themselves; with absent bindings only totality and surfacing of the action failure are judged; reference step from C04.", "DESIGN.md §4 C07"),
+ "C09": ("fault_enumeration", "differential twin run with the state JSON-round-tripped at enumerated message boundaries",
+         "For 4e3/8e4 generated machines (ECMAScript actions storing integers, fractions, nested arrays/objects, nulls, inequality bounds, or failing; later patterns that look inside those values; user-defined error node over lastBindings/lastNode) and histories of 1-6 messages, the in-memory run is compared message by message with runs that persist-and-reload the state at every subset of boundaries (histories <= 4) or every single and all boundaries (longer).",
+         "Deterministic specs; JSON-representable action results; crash points = message boundaries.", "DESIGN.md §4 C09"),
+ "C10": ("exploration", "before/after snapshots + polluter/probe differential + concurrent self-check under the Go race detector",
+         "16 polluting scripts in sequences of 1-5 precede a probe whose report of everything it can observe must equal the clean report; a self-probe pollutes and must never see its own leftovers; caller bindings and props are deep-snapshotted around every execution and around Spec.Walk; 16-64 goroutines execute one compiled source with a shared props object under -race.",
+         "Observability limited to what the probe script enumerates; race detector sees only produced interleavings.", "DESIGN.md §4 C10"),
+ "C11": ("exploration", "bounded-response monitor + goroutine-profile leak monitor in child processes",
+         "12 non-terminating interpreted scripts x 7 deadlines x {deadline, asynchronous cancel} x concurrency 1/4/16/64 x {Exec, Walk with 3 error settings} (all in thorough, a third per seed in quick): each call must return the timeout error within deadline + 10 s (hard bound), the walk must route it as an action error, and no goroutine with an interpreter frame may remain 5 s after the batch.",
+         "Liveness restated as a bounded response with a bound 3 orders of magnitude above the observed latency; single long built-in calls out of scope.", "DESIGN.md §4 C11"),
+ "C12": ("exploration", "Go race detector + sequential-equivalence monitor + version-coherence monitor",
+         "Under -race and GOMAXPROCS 2/4/16: 16-64 goroutines walk distinct machines over one spec object and must each reproduce the solo result (spec snapshot compared afterwards); 16 walkers over an UpdatableSpec swapped among 4 stamped versions must each carry stamps of exactly one version (walks straddling a swap are counted).",
+         "Race detector sees only interleavings that occurred; hosts obtain the spec once per processing call.", "DESIGN.md §4 C12"),
 }
 
 NOT_YET = "check not built yet in this session (planned: see DESIGN.md §4)"
